@@ -22,6 +22,7 @@ ASSUMPTIONS = [
 ]
 DECIDING = ["runs_compared", "counts_compared", "cap_runs"]
 THOROUGH_SHARDS = 12
+REPLAY_BY_SEED = True  # histories are regenerated from the seed; see main.py
 
 
 def counts_of(rec, prefix):
